@@ -70,6 +70,14 @@ CLAIMED = {
             "Trusted: pysym translator (validated per run), z3/cvc5 FP theories, element-wise numpy models listed per obligation; "
             "QuantizedTime only for a sweep of concrete durations.",
             "DESIGN.md §1 C10"),
+    "C13": ("CrossHair/z3 symbolic execution of BOTH real decoders (struct-based fast reader and declarative template) on "
+            "payloads produced by the template's own serializer from a value with symbolic section flags / ids / State / "
+            "path parameters, compared field by field; template re-encoding compared with the payload",
+            "Bounded symbolic differential checking of two implementations of one format; quick tier covers 6 section "
+            "patterns x 2 object kinds, thorough all 2^11 patterns x 4 kinds (may be inconclusive within its budget).",
+            "Trusted: CrossHair + z3 + struct patch (incl. the repeat-count fix); floats/UUIDs/TE/ExtraParams from the "
+            "repo's sample payload; State byte from a 6-value catalogue.",
+            "DESIGN.md §1 C13"),
     "C15": ("CrossHair/z3-driven exhaustive exploration of fault schedules (event type x capability kind x raise point x addon "
             "behaviour) through the real pump_proxy_event / HippoHTTPFlow take/resume / CapData (de)hydration, counting "
             "hand-backs and comparing the handed-back state",
